@@ -58,10 +58,10 @@ type tc struct {
 
 func Run(r *core.Run) {
 	r.Rule = "valid patches of all actions and shapes + one labelled mutation per constraint: id lengths 0/1/50/51 and each forbidden character class, duplicates, every missing/extra member, JWK members, " +
-		"the full matrix 6 key types x (32 purpose subsets in thorough / 5 single purposes + general + pairs in quick) x {JWK, base58}, service type lengths 0/1/30/31, endpoint shapes incl. lists with a bad i-th entry (i=1..3), " +
+		"the full matrix 6 key types x (32 purpose subsets in thorough / 5 single purposes + general + pairs in quick) x {JWK, base58}, service type lengths 0/1/30/31, endpoint shapes incl. lists with a bad i-th entry (i=1..3) and all 258 lists of length 1-3 over {URI, empty, unparsable, object, number, list} entries, " +
 		"also-known-as, remove lists, replace documents; IsValidOriginalDocument of both validators; oracle both directions; distinct = distinct patch texts; non-trivial = all"
 	r.Assumptions = []string{"independent predicate ref/rules written from the statement and the documented type x purpose table",
-		"URIs are chosen so that every reasonable definition of 'valid URI' agrees (absolute URIs vs unparsable strings)", "non-string entries in id / URI / purpose lists are not generated (the statement does not define them)"}
+		"URIs are chosen so that every reasonable definition of 'valid URI' agrees (absolute URIs vs unparsable strings)", "non-string entries in id / also-known-as / purpose lists are not generated (the statement does not define them); endpoint lists do mix string and non-string entries (only string entries are constrained)"}
 	yes, no := true, false
 	var cases []tc
 	add := func(label string, p M, want *bool) { cases = append(cases, tc{label, clone(p).(M), want}) }
@@ -239,6 +239,35 @@ func Run(r *core.Run) {
 			l[i] = bad
 			addSvcs(fmt.Sprintf("list-entry-%d-bad=%q", i+1, bad), []any{svc("svc-1", "T", l)}, &no)
 		}
+	}
+	// every endpoint list of length 1..3 over string and non-string entries: only the string entries are constrained, wherever they stand
+	{
+		entries := []any{"https://a.example/", "", "::bad", M{"uri": "https://x.example/"}, 7.0, []any{"::bad"}}
+		names := []string{"uri", "empty", "unparsable", "object", "number", "list"}
+		var rec func(l []any, label string)
+		rec = func(l []any, label string) {
+			if len(l) > 0 {
+				var want *bool
+				switch label {
+				case "object,empty", "number,uri,unparsable", "list,object,empty":
+					want = &no
+				case "object,uri", "number,list,object", "list":
+					want = &yes
+				}
+				addSvcs("mixed-list/"+label, []any{svc("svc-1", "T", clone(l))}, want)
+			}
+			if len(l) == 3 {
+				return
+			}
+			for i, e := range entries {
+				sep := ","
+				if label == "" {
+					sep = ""
+				}
+				rec(append(append([]any{}, l...), e), label+sep+names[i])
+			}
+		}
+		rec(nil, "")
 	}
 	addSvcs("second-service-bad", []any{svc("svc-1", "T", "https://a.example/"), svc("svc-2", "T", "")}, &no)
 	// also-known-as
